@@ -252,6 +252,11 @@ fn oracle_stream(spec: &str, sched: &str, ops: &str, file: &[u8], ann: &str) -> 
                       else if w.starts_with("rels=") || w.starts_with("relas=") { "C09" }
                       else if w.starts_with("notes=") || w.starts_with("strtab=") { "C20" } else { base_tag };
             let (sw, sg) = (status(w), status(g));
+            // notes handed out through the stream parser are C14's subject as well (same records as the slice parser,
+            // whose iteration C14's own oracle compares with the reference walk)
+            if w.contains("notes=") && sw == "ok" && sg == "ok" {
+                fails.push(format!("C14: `{}`: notes through the stream parser differ from the notes of the same bytes: stream `{}` slice `{}`", q, &g[..g.len().min(160)], &w[..w.len().min(160)]));
+            }
             let data_piece = w.starts_with("data=");
             if sw == "ok" && sg == "ok" {
                 fails.push(format!("{}: `{}`: both succeed with different content: stream `{}` slice `{}`", tag, q, &g[..g.len().min(160)], &w[..w.len().min(160)]));
